@@ -1,0 +1,8 @@
+//go:build verif
+
+package goja
+
+// specGoSliceWF: a Go-slice wrapper always has the variable it views.
+func specGoSliceWF(o *objectGoSlice) bool {
+	return o != nil && o.data != nil
+}
